@@ -1,6 +1,6 @@
 (* C08 — independent operations do not interfere through package-level shared state.
    Statements only; every proof is [exact <lemma of C08/Proofs*.v>]. *)
-From Kit Require Import C08.Model C08.Spec C08.Check C08.Proofs C08.Proofs_witness C08.Proofs_shared.
+From Kit Require Import C08.Model C08.Spec C08.Check C08.Proofs C08.Proofs_witness C08.Proofs_shared C08.Proofs_progress.
 
 (* The Encrypt / Decrypt programs of the current tree (readHeader clones the two header lines),
    for EVERY input (any header chunking, any number of segments, any source chunks, carry-over
@@ -30,6 +30,70 @@ Theorem C08_noninterference : forall ds, (forall i, desc_wf (ds i)) ->
   exists t, run_alone (fixed_progs ds i) (count i es) = Some t /\ result s i = result t 0.
 Proof. exact fixed_noninterference. Qed.
 Print Assumptions C08_noninterference.
+
+(* Progress (no operation can be blocked through the pool): in EVERY reachable state of disciplined
+   programs, an operation that has not finished can take its next action, whatever the other
+   operations are doing and whatever sync.Pool would hand out. *)
+Theorem C08_progress : forall progs s i c,
+  (forall j, safe_prog (progs j) = true) -> reachable progs s -> ~ finished s i ->
+  exists s', step s (i, c) = Some s'.
+Proof.
+  exact (fun progs s i c H Hr Hnf => progress s i c (Inv_reachable progs s H Hr) Hnf).
+Qed.
+Print Assumptions C08_progress.
+
+(* Termination: in every schedule the number of actions operation i has taken plus the length of
+   what is left of its program is the length of its program (one action per instruction, no
+   loops); and from every reachable state operation i can be driven to its end, alone, in exactly
+   that many actions. *)
+Theorem C08_steps_bounded : forall progs es s i,
+  run (init_state progs) es = Some s ->
+  length (prog (ops s i)) + count i es = length (progs i).
+Proof. exact steps_bounded. Qed.
+Print Assumptions C08_steps_bounded.
+
+Theorem C08_can_always_finish : forall progs es s i,
+  (forall j, safe_prog (progs j) = true) -> run (init_state progs) es = Some s ->
+  exists es' s', run s es' = Some s' /\ finished s' i /\ count i es' = length (prog (ops s i)).
+Proof. exact can_always_finish. Qed.
+Print Assumptions C08_can_always_finish.
+
+(* The COMPLETE result: whenever operation i has finished - in ANY schedule, with any other
+   operations before, between and after its actions - everything it observed is its solo result,
+   the observations of its complete run alone in the process (which exists: a disciplined program
+   alone runs to its end). *)
+Theorem C08_completed_result : forall progs es s i,
+  (forall j, safe_prog (progs j) = true) -> run (init_state progs) es = Some s ->
+  finished s i -> result s i = solo_result (progs i).
+Proof. exact completed_result. Qed.
+Print Assumptions C08_completed_result.
+
+Theorem C08_solo_terminates : forall p, safe_prog p = true ->
+  exists t, run_alone p (length p) = Some t /\ finished t 0.
+Proof. exact solo_terminates. Qed.
+Print Assumptions C08_solo_terminates.
+
+(* The functions the correspondence check evaluates on every recorded nesting are tied to these
+   theorems: the "solo trace" it compares with (LIFO pool, fuel 4000) is the solo result, and its
+   prediction for the current tree - operation 0 and 1 run with complete pipelines nested at their
+   callbacks, the rest afterwards - is Same for every pipeline, for EVERY nesting, as soon as the
+   recorded programs pass the (decidable, evaluated per case) premises. *)
+Theorem C08_solo_trace_is_solo_result : forall p,
+  safe_prog p = true -> length p <= 4000 -> solo_trace p = solo_result p.
+Proof. exact solo_trace_is_solo_result. Qed.
+Print Assumptions C08_solo_trace_is_solo_result.
+
+Theorem C08_predict_fixed_all_same : forall ps nests,
+  (forall i, safe_prog (progs_of Fixed ps i) = true) ->
+  (forall i, length (progs_of Fixed ps i) <= 4000) ->
+  predict Fixed ps nests = repeat Same (length ps).
+Proof. exact predict_fixed_all_same. Qed.
+Print Assumptions C08_predict_fixed_all_same.
+
+Theorem C08_predict_fixed_checked : forall ps nests,
+  nest_premises_b ps = true -> predict Fixed ps nests = repeat Same (length ps).
+Proof. exact predict_fixed_checked. Qed.
+Print Assumptions C08_predict_fixed_checked.
 
 (* Both hold for ANY programs obeying the discipline (not only the compiled ones). *)
 Theorem C08_discipline_suffices : forall progs, (forall i, safe_prog (progs i) = true) ->
